@@ -4,6 +4,7 @@
 mod alloc;
 mod atoms;
 mod driver;
+mod forge;
 mod harvest;
 mod mctx;
 mod mutate;
